@@ -36,6 +36,9 @@ CHECKS = {
  'C10': dict(level='exploration', technique='runtime monitor: history-independence oracle (every call vs fresh instance), instance-state fingerprint invariant at quiescent points, seeded line-level thread scheduler (sys.monitoring) with sequential-result oracle',
              text='Random call histories (parse/lex/scan/interactive, failing and abandoned calls, other instances built in between, Indenter streams ending in DedentError or abandoned mid-block) on one instance: every result must equal the fresh-instance result and the digest of all instance-reachable state must stay constant after warm-up (lazy caches may appear once). Threads: 2-4 threads use a fresh instance under thousands of seeded, replayable statement-level interleavings of the lexer/front-end code; every thread must get the sequential result.',
              note='Interleavings are sampled, at statement granularity, in the instrumented functions; callbacks are pure. Post-lexer fields are excluded from the digest (judged by behaviour).', ref='4 C10'),
+ 'C11': dict(level='exploration', technique='differential runtime monitor: direct instance vs save/load vs cache-served vs generated stand-alone module on parse / interactive scripts / scan, duck-typed canonical outcomes',
+             text='For generated and hand-written LALR grammars (imports, templates, priorities, flags, >100 terminals, bytes, multiple starts, embedded transformer, Indenter post-lexer) and option sets, every input is run through four parsers - built directly, restored from save(), served from the cache (confirmed by observing that load_grammar was not called) and instantiated from the module gen_standalone writes from the current sources - and the canonical outcomes (trees with all coordinates and meta, exception class/position/sets, accepts() after every token, scan spans) must be identical.',
+             note='Stand-alone modules are executed in-process under unique names; Lark.load takes no options so transformer/postlex variants cover cache and stand-alone only.', ref='4 C11'),
  'C12': dict(level='fault_enumeration', technique='fault injection on the real cache file (truncation offsets, bit flips, spliced/foreign payloads, writer killed in a subprocess, key histories incl. python 3.11) with behaviour-vector oracle vs uncached build and cache-served observation',
              text='Every fault state of the cache file is followed by a real construction whose behaviour vector (canonical outcomes with positions on a fixed input set, terminal table, rules) must equal the uncached build; the constructor must not raise; a parser cached for another key must not be served (observed: load_grammar called or not); the file left behind must be a valid cache. Truncation offsets are enumerated (quick: every 16th + whole prologue; thorough: every offset), other faults sampled.',
              note='Known findings F-C12-1 (payload not integrity-checked) and F-C12-2 (edit_terminals / postlex.always_accept neither hashed nor re-applied). Damaged-payload loads run in a forked child under memory and time limits.', ref='4 C12'),
